@@ -67,6 +67,7 @@ func init() {
 }
 
 func runC12(c *Ctx) {
+	c01ConfiguredKeyIsTheMacKey(c) // the one-hop MACs are computed with the same factory
 	onehopReversalRules(c, "V1-onehop-reversal")
 	v := c.View(procT + ".processOHP")
 	if v == nil {
